@@ -6,7 +6,7 @@
             | [5 e root] reroot | [6 e] from_json(to_json) | [7 e] as_directory
      rootarg ::= [0 rootindex] | [1 expr]        option ::= [] | [x] *)
 From Coq Require Import String List NArith Bool.
-From BFG Require Import Base.Chars Base.Sx Path.PathAlg.
+From BFG Require Import Base.Chars Base.Sx Path.PathAlg Path.PathEnsure.
 Import ListNotations.
 Local Open Scope N_scope.
 
@@ -104,6 +104,20 @@ Definition table : list (string * (sx -> sx)) := [
   ("path.eq", fun a =>
       match ev (nth_sx 0 a), ev (nth_sx 1 a) with
       | Some p, Some q => L [sx_bool (path_eqb p q)]
+      | _, _ => L []
+      end);
+  (* Path.ensure(thing, rootarg, destdir, directory, strict=...): thing ::= [0 s] | [1 expr]; [] when a sub-expression
+     does not evaluate, [[]] when ensure raises ValueError, [[path]] otherwise *)
+  ("path.ensure", fun a =>
+      let th := nth_sx 0 a in
+      let ra := nth_sx 1 a in
+      let t := if N.eqb (un_N (nth_sx 0 th)) 0 then Some (TStr (un_str (nth_sx 1 th)))
+               else option_map TPath (ev (nth_sx 1 th)) in
+      let r := if N.eqb (un_N (nth_sx 0 ra)) 0 then Some (RRoot (root_of_index (un_N (nth_sx 1 ra))))
+               else option_map RPath (ev (nth_sx 1 ra)) in
+      match t, r with
+      | Some t', Some r' => L [sx_opt sx_path (ensure t' r' (un_optbool (nth_sx 2 a)) (un_optbool (nth_sx 3 a))
+                                                    (un_bool (nth_sx 4 a)))]
       | _, _ => L []
       end)
 ]%string.
